@@ -23,7 +23,9 @@ import (
 	"io"
 	"math/big"
 	"net"
+	"os"
 	"strings"
+	"syscall"
 	"time"
 
 	"github.com/iDigitalFlame/xmt/c2"
@@ -371,6 +373,44 @@ func genPairs(thorough bool) {
 
 var errFault = errors.New("verif: injected fault")
 
+// errKinds: every KIND of connection error the code in c2/com distinguishes somewhere
+// (isClosedError = errors.Is(net.ErrClosed); net.Error.Timeout() in the accept loops; io.EOF in
+// the readers; io.ErrClosedPipe from the UDP/WC2/pipe conns; io.ErrShortWrite from Marshal) plus
+// the usual socket errnos wrapped the way package net wraps them, and a plain error.
+var errKinds = []string{"plain", "closed", "closed-op", "eof", "unexpected-eof", "closedpipe", "deadline", "timeout-op", "epipe", "econnreset", "short"}
+
+type timeoutErr struct{}
+
+func (timeoutErr) Error() string   { return "verif: i/o timeout" }
+func (timeoutErr) Timeout() bool   { return true }
+func (timeoutErr) Temporary() bool { return true }
+
+// mkErr builds the injected error of the given kind for operation op ("write" / "read").
+func mkErr(kind, op string) error {
+	a := &net.TCPAddr{IP: net.IPv4(127, 0, 0, 1), Port: 443}
+	switch kind {
+	case "closed":
+		return net.ErrClosed
+	case "closed-op":
+		return &net.OpError{Op: op, Net: "tcp", Addr: a, Err: net.ErrClosed}
+	case "eof":
+		return io.EOF
+	case "unexpected-eof":
+		return io.ErrUnexpectedEOF
+	case "closedpipe":
+		return io.ErrClosedPipe
+	case "deadline":
+		return os.ErrDeadlineExceeded
+	case "timeout-op":
+		return &net.OpError{Op: op, Net: "tcp", Addr: a, Err: timeoutErr{}}
+	case "epipe":
+		return &net.OpError{Op: op, Net: "tcp", Addr: a, Err: os.NewSyscallError(op, syscall.EPIPE)}
+	case "econnreset":
+		return &net.OpError{Op: op, Net: "tcp", Addr: a, Err: os.NewSyscallError(op, syscall.ECONNRESET)}
+	}
+	return errFault
+}
+
 type addr struct{}
 
 func (addr) Network() string { return "verif" }
@@ -383,13 +423,17 @@ type fconn struct {
 	rbuf      []byte
 	failWrite bool
 	readErr   bool
+	kind      string // kind of the injected error (see errKinds)
 	triggered bool
 	onRead    func(req []byte) ([]byte, bool)
 }
 
 func (c *fconn) Write(b []byte) (int, error) {
 	if c.failWrite {
-		return 0, errFault
+		if c.kind == "short" {
+			return 0, nil // a short write without an error: Marshal turns it into io.ErrShortWrite
+		}
+		return 0, mkErr(c.kind, "write")
 	}
 	c.wbuf = append(c.wbuf, b...)
 	return len(b), nil
@@ -403,7 +447,10 @@ func (c *fconn) Read(b []byte) (int, error) {
 		}
 	}
 	if c.readErr {
-		return 0, errFault
+		if c.kind == "short" {
+			return 0, io.EOF // nothing arrives and the stream ends
+		}
+		return 0, mkErr(c.kind, "read")
 	}
 	if len(c.rbuf) == 0 {
 		return 0, io.EOF
@@ -449,6 +496,7 @@ type round struct {
 	P      []int  `json:"p"`      // client payload
 	Q      []int  `json:"q"`      // server payload
 	Fault  string `json:"fault"`  // "" | write | lost-before | lost-after
+	Err    string `json:"err"`    // kind of the injected error (errKinds); "" = plain
 	Forget int    `json:"forget"` // 0 no, 1 server forgets the session, 2 and restarts with a new key pair
 	Short  bool   `json:"short"`  // re-key: redraw the announced pair until the ECDH secret is shorter than the share
 }
@@ -624,7 +672,12 @@ func (w *world) exchange(r round) {
 		ev = append(ev, fmt.Sprintf("DataSend %s", vh.Bytes(p)))
 	}
 	served := false
-	conn := &fconn{failWrite: r.Fault == "write"}
+	if r.Fault == "" {
+		r.Err = ""
+	} else if r.Err == "" {
+		r.Err = "plain"
+	}
+	conn := &fconn{failWrite: r.Fault == "write", kind: r.Err}
 	conn.onRead = func(req []byte) ([]byte, bool) {
 		if r.Fault == "lost-before" {
 			return nil, false
@@ -697,7 +750,7 @@ func (w *world) exchange(r round) {
 	cgot, sgot := only(cg, cgi, idServerData), only(sg, sgi, idClientData)
 	w.terms = append(w.terms, fmt.Sprintf("(%s, mkObs %s %s %s %s %s %s)", vh.List(ev), vh.Bytes(cshare[:]), vh.B(cnext != nil),
 		vh.B(ss != nil), vh.Bytes(sshare[:]), byteList(cgot), byteList(sgot)))
-	w.classes[r.Kind+"/"+r.Fault] = true
+	w.classes[r.Kind+"/"+r.Fault+"/"+r.Err] = true
 
 	// ---- the shape of the history (which known finding, if any, it has entered)
 	pending := cnext != nil
@@ -722,7 +775,9 @@ func (w *world) exchange(r round) {
 	completed := ok && r.Fault == ""
 	if r.Fault == "write" && rekeyed {
 		if cnext != nil || cshare != shareBefore {
-			w.fail("a failed write of the re-key announcement did not leave the client on the old key", r.Kind)
+			// its own key whatever else happened in this history: the shape is "the write of the announcement failed with <kind>"
+			out.Fail("a failed write ("+r.Err+") of the re-key announcement did not leave the client on the old key with keysNext cleared",
+				"rekey-write-failed-not-reverted:"+r.Err, map[string]interface{}{"history": w.hist, "error_kind": r.Err, "keys_next_pending": cnext != nil})
 		}
 	}
 	if !completed {
@@ -798,11 +853,38 @@ func corpus() {
 		rd("rekey", "", "", ""), rd("rekey", "", "", ""), rd("data", "", "after-3-rekeys", "y")}, "hist-corpus")
 	// a failed write reverts
 	runHistory([]round{c, rd("rekey", "write", "", ""), rd("data", "", "secret-payload", "server-task"), rd("rekey", "", "", ""), rd("data", "", "p2", "q2")}, "hist-corpus")
+	// the write of the announcement fails with every KIND of error the code tells apart: each must revert
+	// (two clean exchanges, a complete re-key and traffic follow: a kind that does not revert swaps
+	// the client to a key the server never saw)
+	for _, k := range errKinds {
+		wf := rd("rekey", "write", "", "")
+		wf.Err = k
+		runHistory([]round{c, wf, rd("data", "", "after-failed-write", "a"), rd("data", "", "and-again", "b"), rd("rekey", "", "", ""), rd("data", "", "p", "q")}, "hist-write-fail-kinds")
+		bf := rd("batch", "write", "queued-behind-failing-rekey", "")
+		bf.Err = k
+		df := rd("data", "write", "lost-with-the-write", "x")
+		df.Err = k
+		runHistory([]round{c, rd("data", "", "one", "1"), df, bf, rd("data", "", "two", "2"), rd("rekey", "", "", ""), rd("data", "", "three", "3")}, "hist-write-fail-kinds")
+		// the read of an ordinary reply fails (no announcement pending): harmless for every kind
+		lb := rd("data", "lost-before", "never-arrives", "")
+		lb.Err = k
+		la := rd("data", "lost-after", "arrives", "reply-lost")
+		la.Err = k
+		runHistory([]round{c, lb, rd("data", "", "one", "1"), la, rd("rekey", "", "", ""), rd("data", "", "two", "2")}, "hist-read-fail-kinds")
+	}
 	// KNOWN FINDING rekey-reply-lost-after-server-processed: the server processed the announcement, the reply was lost
 	runHistory([]round{c, rd("data", "", "before", "b"), rd("rekey", "lost-after", "", ""), rd("data", "", "secret-payload", "server-task"), rd("data", "", "healed", "h")}, "hist-finding-reply-lost")
 	// KNOWN FINDING rekey-announcement-lost: the write succeeded locally, nothing arrived
 	runHistory([]round{c, rd("rekey", "lost-before", "", ""), rd("data", "", "secret-payload", "server-task"), rd("data", "", "still-garbled", "g"),
 		rd("rekey", "", "", ""), rd("data", "", "for-good", "f")}, "hist-finding-announcement-lost")
+	for _, k := range errKinds[1:] {
+		la := rd("rekey", "lost-after", "", "")
+		la.Err = k
+		runHistory([]round{c, la, rd("data", "", "secret-payload", "server-task"), rd("data", "", "healed", "h")}, "hist-finding-reply-lost-kinds")
+		lb := rd("rekey", "lost-before", "", "")
+		lb.Err = k
+		runHistory([]round{c, lb, rd("data", "", "secret-payload", "server-task"), rd("data", "", "still-garbled", "g")}, "hist-finding-announcement-lost-kinds")
+	}
 	// FIXED rekey-merged-into-batch: a data Packet queued behind the announcement (the race in next());
 	// the announcement now travels alone, the data Packet follows in the next exchange
 	runHistory([]round{c, rd("batch", "", "queued-with-rekey", "q"), rd("data", "", "secret-payload", "server-task"),
@@ -858,6 +940,9 @@ func randHistory(maxLen int, faults bool) []round {
 		}
 		if faults && rng.Intn(4) == 0 {
 			r.Fault = []string{"lost-before", "lost-after"}[rng.Intn(2)]
+		}
+		if r.Fault != "" {
+			r.Err = errKinds[rng.Intn(len(errKinds))]
 		}
 		if rng.Intn(12) == 0 {
 			r.Forget = 1 + rng.Intn(2)
